@@ -311,6 +311,7 @@ SCOPES = [
     ("extern-block", [], "extern \"C\" {{\n{X}\n}}"),
     ("depth2", [("o", False), ("i", False)], "namespace o {{ extern \"C++\" {{ namespace i {{\n{X}\n}} }} }}"),
     # a nested-name definition whose leading component already exists (re-entered through the nested-name syntax)
+    ("anonymous-in-namespace", [("N", False), ("", False)], "namespace N {{ int pre2; namespace {{\n{X}\n}} }}\nnamespace {{ int glob; }}"),
     ("reopened-prefix", [("a", False), ("b", False)], "namespace a {{ int pre; }}\nnamespace a::b {{\n{X}\n}}"),
 ]
 
@@ -376,6 +377,14 @@ def build_program(ch):
         from cxxheaderparser.types import Variable
 
         data.namespace.namespaces["a"].variables.append(Variable(name=pq("pre"), type=T_int()))
+    if scope[0] == "anonymous-in-namespace":
+        # the unnamed namespace inside N and the one at file scope are different scopes
+        from cxxheaderparser.types import Variable
+
+        data.namespace.namespaces["N"].variables.append(Variable(name=pq("pre2"), type=T_int()))
+        g = NamespaceScope("")
+        g.variables.append(Variable(name=pq("glob"), type=T_int()))
+        data.namespace.namespaces[""] = g
     for _, objs, extra in items:
         for coll, obj in objs:
             getattr(ns, coll).append(obj)
